@@ -20,6 +20,11 @@ CLAIMED = {
    "deterministic simulation: seeded scheduler over park/release hooks inside a testing/synctest bubble, sequential-specification oracle"),
 }
 
+CLAIMED["C11"] = ("exploration", "3 (C11)",
+   "The real queryer.MultiOpQueryer alone on the simulated transport against an echo service: (N, m) pairs over the whole small grid (N=0..13 x m=1..6 quick, 0..40 x 1..12 thorough, boundaries N=k*m, k*m+-1 inside), seeded completion orders of the concurrent chunk calls and of the nested fan-out yields, one or two failing chunk calls (connection error before/after the service, 503, body read error, non-JSON, non-array, element with errors), inputs with file uploads mixed in. Oracle: N results, result i answers request i, every request in exactly one HTTP call (at most one under faults), no call above m, error and nil result when a call failed.",
+   "Sampling of the (N,m,schedule,fault) space, pairs drawn from the tape (coverage_points_distinct reports how many of the grid were reached). Trusted: echo service, multipart re-parser of the Go standard library.",
+   "deterministic simulation: simulated RoundTripper with per-exchange delivery/reply actions, seeded schedule + fault search, sequential-specification oracle")
+
 PENDING = {}  # id -> reason while a check is not built yet
 
 def main():
